@@ -4,6 +4,7 @@ import DoraModel.Props.C08.Cls1
 import DoraModel.Props.C08.Cls2
 import DoraModel.Props.C08.Cls3
 import DoraModel.Props.C08.Cls4
+import DoraModel.Props.C08.Cls5
 /-!
 # Bridging lemmas and tactic macros of the generated per-method theorems (`Gen/A64Thm*.lean`)
 
@@ -240,11 +241,60 @@ macro "peel_imm " hA:ident h:ident : tactic =>
                enczs_ok, ex_unit, Except.ok.injEq, Prod.mk.injEq, true_and, forall_exists_index, and_imp,
                NeonRegister.encoding, FLOAT_TYPE_SINGLE, FLOAT_TYPE_DOUBLE, REG_ZERO, REG_SP, optExpect_ok, encode_addsub_imm_ok,
                or_imp, forall_and]
-             constructor
-             all_goals (intros; subst_vars)))
+             first | (constructor <;> (intros; subst_vars)) | (intros; subst_vars)))
 
 /-- split the `if`s of a method body (`add`/`sub`/`mov` choose the form that can name `sp`, …) -/
 macro "method_split " h:ident : tactic => `(tactic| repeat' (split at $h:ident))
+
+theorem toInt_of_srem8 (x : BitVec 32) (h : x.srem 8#32 = 0#32) : x.toInt = (x.sdiv 8#32).toInt * 8 := by
+  have e : x = x.sdiv 8#32 * 8#32 := by bv_decide (timeout := 600)
+  have b1 : (x.sdiv 8#32).slt 268435456#32 = true ∧ (4026531840#32).sle (x.sdiv 8#32) = true := by
+    bv_decide (timeout := 600)
+  have h2 := congrArg BitVec.toInt e
+  rw [BitVec.toInt_mul] at h2
+  simp only [BitVec.slt, BitVec.sle, decide_eq_true_eq, BitVec.reduceToInt] at b1
+  rw [h2]
+  simp only [BitVec.reduceToInt, Int.bmod_def, Nat.reducePow]
+  split <;> omega
+
+theorem toInt_of_srem4 (x : BitVec 32) (h : x.srem 4#32 = 0#32) : x.toInt = (x.sdiv 4#32).toInt * 4 := by
+  have e : x = x.sdiv 4#32 * 4#32 := by bv_decide (timeout := 600)
+  have b1 : (x.sdiv 4#32).slt 536870912#32 = true ∧ (3758096384#32).sle (x.sdiv 4#32) = true := by
+    bv_decide (timeout := 600)
+  have h2 := congrArg BitVec.toInt e
+  rw [BitVec.toInt_mul] at h2
+  simp only [BitVec.slt, BitVec.sle, decide_eq_true_eq, BitVec.reduceToInt] at b1
+  rw [h2]
+  simp only [BitVec.reduceToInt, Int.bmod_def, Nat.reducePow]
+  split <;> omega
+
+theorem pcrel_imm (imm : BitVec 32) :
+    (BitVec.extractLsb' 2 19 imm).toNat * 4 + (BitVec.extractLsb' 0 2 imm).toNat = imm.toNat % 2097152 := by
+  simp only [BitVec.extractLsb'_toNat, Nat.shiftRight_eq_div_pow, Nat.reducePow]
+  omega
+
+theorem ldst_enc_ok (e : Extend) (x : BitVec 3) :
+    Extend.ldst_encoding e = .ok (BitVec.setWidth 32 x) ↔
+      (e = .UXTW ∧ x = 2#3) ∨ (e = .LSL ∧ x = 3#3) ∨ (e = .SXTW ∧ x = 6#3) ∨ (e = .SXTX ∧ x = 7#3) := by
+  cases e <;> simp only [Extend.ldst_encoding, pure_ok, reduceCtorEq, false_and, true_and, or_false, false_or, throw, throwThe,
+    MonadExceptOf.throw] <;> first | (constructor <;> intro h <;> bv_decide (timeout := 600)) | simp
+
+/-- the register-offset class accepts only the four extends the instruction has -/
+theorem regoffset_ext_ok (size v opc : BitVec 32) (rm : Register) (e : Extend) (s : BitVec 32) (rn : Register) (rt w : BitVec 32)
+    (h : cls.ldst_regoffset size v opc rm e s rn rt = .ok w) : e = .UXTW ∨ e = .LSL ∨ e = .SXTW ∨ e = .SXTX := by
+  have hc := C08.ldst_regoffset_sound _ _ _ _ _ _ _ _ _ h
+  have he := hc.2.2.2.2.2.2.2.2.1
+  rw [ldst_enc_ok] at he
+  rcases he with ⟨h, _⟩ | ⟨h, _⟩ | ⟨h, _⟩ | ⟨h, _⟩ <;> simp [h]
+
+macro "regoff_cases" : tactic =>
+  `(tactic| (have he := regoffset_ext_ok _ _ _ _ _ _ _ _ _ (by assumption)
+             rcases he with h | h | h | h <;> subst h))
+
+/-- the decoder's class-selecting bits are among the fixed bits of the word -/
+theorem mask_sub (w M V M0 V0 : BitVec 32) (h : w &&& M = V) (hs : (M0 &&& ~~~M == 0#32 && V &&& M0 == V0) = true) :
+    w &&& M0 = V0 := by
+  bv_decide (timeout := 600)
 
 /-- first half of every generated proof: class theorem → facts in the context → decoder class selected → `hm` = every
 bit of the word that does not depend on an operand (mask and value computed by the generator, checked here by
@@ -253,12 +303,12 @@ macro "method_pre " hc:term:max ppSpace dl:ident ppSpace df:ident ppSpace M:term
   `(tactic| (have hc := $hc
              repeat (first | specialize hc (by assumption) | specialize hc (by decide))
              refine ⟨_, rfl, ?_⟩
-             rw [requested_iff, $dl:ident]
-             case h => bv_decide (timeout := 600)
-             have hm : (by assumption : BitVec 32) &&& $M = $V := by bv_decide (timeout := 600)
              repeat (obtain ⟨_, hc⟩ := hc)
-             spec_eval
-             simp (maxSteps := 400000) (disch := decide) only [$df:ident, fld, *, regField_enc, setWidth5_32, regField_def, extract_of_mask _ _ _ _ _ hm,
+             try simp only [ldst_enc_ok, reduceCtorEq, false_and, true_and, or_false, false_or] at *
+             have hm : (by assumption : BitVec 32) &&& $M = $V := by bv_decide (timeout := 600)
+             rw [requested_iff, $dl:ident]
+             case h => exact mask_sub _ _ _ _ _ hm (by decide)
+             simp (maxSteps := 400000) (disch := decide) only [$df:ident, fld, *, regField_enc, setWidth5_32, regField_def, pcrel_imm, extract_of_mask _ _ _ _ _ hm,
                BitVec.reduceExtractLsb', BitVec.reduceSetWidth, BitVec.reduceToNat, Nat.reduceEqDiff, ↓reduceIte, decide_true, decide_false,
                Bool.or_false, Bool.false_or, Bool.and_true, Bool.true_and, Bool.and_false, Bool.false_and, Bool.false_eq_true, Nat.reduceBEq, Nat.reduceBNe]
              try simp (disch := decide) only [toNat_extract_succ _ _ 1, toNat_extract_succ _ _ 2, toNat_extract_succ _ _ 3, toNat_extract_succ _ _ 4, toNat_extract_succ _ _ 5, *, extract_of_mask _ _ _ _ _ hm, Nat.reduceAdd, Nat.reduceMul,
@@ -271,7 +321,7 @@ macro "method_fin0" : tactic =>
                beq_iff_eq, not_or, ↓reduceIte, BitVec.reduceEq, and_4095_iff, BitVec.toNat_udiv, BitVec.toNat_umod, BitVec.toNat_ofNat, ne_eq,
                not_true_eq_false, not_false_eq_true, reduceCtorEq, false_imp_iff, true_imp_iff] at *) <;>
              (simp (maxSteps := 400000) (disch := first | assumption | omega | decide) [*, regField_zr, regField_sp, REG_ZERO, REG_SP, filterMap_id_some, fits_of_bounds, fits_false_hi, fits_false_lo, sext7, sext9, sext14, sext19, sext21, sext26, pairMem, memOff, memRegOpd, addvD, addvV, ldstRegName, sizeSuffix,
-               kStartsWith, kSliceToString, kSliceCopy, kAppend, if_pos, if_neg, Shift.u32, Cond.u32, BitVec.toNat_udiv, BitVec.toNat_umod, ult_lit8, Nat.mod_eq_of_lt, Int.emod_eq_of_lt, rz_field, rsp_field, rz_gpr, rsp_gpr, fpr_field, fpr_field', regField_gpr,
+               kStartsWith, kSliceToString, kSliceCopy, kAppend, if_pos, if_neg, toInt_of_srem8, toInt_of_srem4, Int.mul_emod_left, Int.mul_ediv_cancel, Shift.u32, Cond.u32, BitVec.toNat_udiv, BitVec.toNat_umod, ult_lit8, Nat.mod_eq_of_lt, Int.emod_eq_of_lt, rz_field, rsp_field, rz_gpr, rsp_gpr, fpr_field, fpr_field', regField_gpr,
                gz_one, gz_zero, gs_one, gs_zero, build, oreg, mk, guard', fpReg, isSP_iff, extendOptionSpec, extName, shiftName, condName, shiftStr, condStr, extStr,
                BitVec.toNat_ushiftRight, Nat.shiftRight_eq_div_pow])))
 
